@@ -40,7 +40,7 @@ FRESH_CALLS = frozenset((
     'np.min', 'np.any', 'np.all', 'np.count_nonzero', 'np.argmin', 'np.argmax', 'np.shape', 'np.ndim', 'np.size',
     'list', 'dict', 'set', 'tuple', 'frozenset', 'sorted', 'reversed', 'range', 'len', 'int', 'float', 'complex', 'str',
     'bytes', 'bytearray', 'bool', 'slice', 'zip', 'enumerate', 'map', 'filter', 'iter', 'sum', 'min', 'max', 'abs', 'round',
-    'repr', 'format', 'hash', 'id', 'isinstance', 'issubclass', 'callable', 'type', 'divmod', 'pow', 'ord', 'chr', 'any',
+    'repr', 'format', 'hash', 'id', 'isinstance', 'issubclass', 'callable', 'divmod', 'pow', 'ord', 'chr', 'any',
     'all', 'object', 'memoryview_copy', 'copy.copy', 'copy.deepcopy', 'itertools.chain', 'itertools.product',
     'itertools.count', 'collections.defaultdict', 'collections.OrderedDict', 'collections.deque', 'io.BytesIO',
     'threading.Lock', 'threading.RLock', 'hashlib.md5', 'hashlib.sha1', 'json.dumps', 'json.loads', 'base64.b64encode',
